@@ -19,6 +19,9 @@ def units_for(prop):
     us = []
     for p in sorted(glob.glob(os.path.join(D.CONTRACTS, '*.spec'))):
         t = '\n'.join(l for l in open(p).read().split('\n') if not l.startswith('@import') and not l.startswith('@@'))
+        only = re.search(r'(?m)^@only\s+(.*)$', t)
+        if only and prop not in only.group(1).split():
+            continue
         if re.search(r'\b%s\b' % prop, t) or prop == 'C01':
             us.append(os.path.basename(p)[:-5])
     return us
